@@ -224,6 +224,28 @@ CLAIMED.update({
 PENDING = {
 }
 
+# the WHOLE command (PelModel/Top.lean: runMain = dispatch followed by the mode it names, on a World), per property
+WHOLE = ('Whole command: runMain (PelModel/Top.lean) composes main()\'s dispatch with the mode it names over a World (top-level files of the -p directory '
+         'in walk order, subdirectory names, the -f / --src-exclude / -o files); harness/toprun.py runs the real peltool.main() end to end on real trees '
+         '(nothing replaced, recursive snapshots) against the driver op runmain and judges the command-level property on the real run. ')
+TOP = {
+    'C07': 'command_default_selection: a whole `-l` command line is listOption with the Config of the command line, whose selection is the default set '
+           'without selection options and everything with -E (C08.command_default_selection_lists spells the listed set out).',
+    'C08': 'command_count_list_all_agree: three command lines differing only in -n / -l / -a on the same world print |S|, S and S for ONE sequence S of '
+           'selected PELs, reversed exactly with -r; exit 0, world unchanged.',
+    'C09': 'command_junk_noninterference (+ command_junk_list): an undecodable file anywhere in the directory changes neither stdout nor the exit status of any '
+           'command line reaching -l / -a / -n / --plid / --src / --src-exclude.',
+    'C10': 'command_lookup_ignores_class: a command line reaching a look-up without selection options hands on the selection {look-up id stored}, and its whole '
+           'result equals that of the same command line with -E.',
+    'C11': 'command_readonly: without -d / -D / --clean / --json the new world IS the old one (all environments, command lines, worlds, fault plans); --json without '
+           '--clean only adds <pel file>.<entry id>.json outputs (the -p directory untouched when -o names another directory); command_delete_exact: -d reached '
+           'removes at most one top-level file whose name contains the id, -D exactly the top-level files; command_json_calls.',
+    'C12': 'command_file_clean: after `-f F --clean` F is gone iff it decoded to a selected document (no fault) / iff cleanFileTrace has a successful removeIn (any '
+           'fault plan); still there unless print, flush and remove all succeeded; nothing else changes.',
+}
+for _k, _t in TOP.items():
+    CLAIMED[_k]['text'] += ' ' + WHOLE + _t
+
 ALL = ['C%02d' % i for i in range(1, 21)]
 
 
